@@ -86,9 +86,12 @@ test(unsigned bl)
 	mk(m, bl, 0, 0);
 	u128 M = val(m, nw);
 	unsigned full = (bl + 7) / 8;
-	for (int v = 0; v < 3; v++) {
-		unsigned len = (v == 0) ? full : (v == 1) ? (full ? full - 1 : 0) : full + 2;
+	/* v = 3, 4 (added by the main session after the seeded change C09c escaped): sources MUCH longer than the
+	   modulus (2*words+3 and 2*words+5 bytes) - the over-long case has its own padding arithmetic in decode_mod */
+	for (int v = 0; v < 5; v++) {
+		unsigned len = (v == 0) ? full : (v == 1) ? (full ? full - 1 : 0) : (v == 2) ? full + 2 : (v == 3) ? 2 * nw + 3 : 2 * nw + 5;
 		if (len > 15) len = 15;
+		if (v >= 3 && bl > 30) continue;   /* the over-long variants only for moduli up to 30 bits (larger ones time out) */
 		unsigned char src[len + 1];
 		ND_BYTES(src, len);
 		u128 V = be_val(src, len);
